@@ -408,8 +408,25 @@ def spell_path_param(rng, name, path):
                        '%s = "%s"' % (name, path), '%s("%s")' % (name, path)])
 
 
+def int_notation(rng, v):
+    """a Rust integer literal (with sign) whose value is v, in one of the notations the language offers"""
+    a = abs(v)
+    forms = ["%d" % a, "%d" % a, "0x%x" % a, "0x%X" % a, "0b%s" % bin(a)[2:], "0o%o" % a, "%disize" % a, "%d_isize" % a]
+    if a >= 1000:
+        forms.append("{:_}".format(a))
+        h = "%x" % a
+        forms.append("0x" + "_".join([h[max(0, i - 4):i] for i in range(len(h), 0, -4)][::-1]))
+    if a.bit_length() < 63:
+        forms.append("%di64" % a)
+    lit = rng.choice(forms)
+    return ("-" if v < 0 else "") + lit
+
+
 def spell_int_param(rng, name, v):
     forms = ["%s = %d" % (name, v), '%s = "%d"' % (name, v), '%s("%d")' % (name, v), "%s(%d)" % (name, v)]
+    if rng.random() < 0.4:
+        n = int_notation(rng, v)
+        forms = ["%s = %s" % (name, n), "%s(%s)" % (name, n)]
     return rng.choice(forms)
 
 
